@@ -9,6 +9,7 @@ CONSTANTS
   MaxOps = 4
   Faults = {"stmt", "ctx", "commit"}
   AllowGap = FALSE
+  Dups = FALSE
   AllowRestart = TRUE
   AllowReorg = FALSE
   Rollups = {}
